@@ -107,10 +107,16 @@ def main():
     level = meta.META[prop]['level']
     evidence = {'property_id': prop, 'tier': tier, 'seed': seed, 'level': level, 'wall_s': 0.0,
                 'coverage': {}, 'assumptions': [], 'violations': 0}
+    workdir = os.path.join(lib.CACHE, 'work', '%s-%d' % (prop, os.getpid()))
     out_lines = []
     violations = []   # (replay_doc, found_input: bool)
 
     def finish(code):
+        import shutil
+        try:
+            shutil.rmtree(workdir, ignore_errors=True)
+        except NameError:
+            pass
         evidence['wall_s'] = round(time.time() - t0, 2)
         evidence['violations'] = len(violations)
         lib.write_evidence(prop, evidence)
@@ -150,7 +156,6 @@ def main():
                           'note': 'the implementation (or the harness against it) does not build; correspondence cannot be established'}, False)
         finish(1)
 
-    workdir = os.path.join(lib.CACHE, 'work', '%s-%d' % (prop, os.getpid()))
     runner = lib.Runner(bins, workdir, chunk_timeout=120 if tier == 'quick' else 600)
     ctx = props.Ctx(prop, tier, random.Random(seed), runner, seed)
     try:
@@ -167,11 +172,10 @@ def main():
         traceback.print_exc()
         evidence['coverage'].update({'evaluations': 0, 'distinct_nontrivial': 0, 'internal_error': traceback.format_exc()[-2000:]})
         finish(2)
-    finally:
-        import shutil
-        shutil.rmtree(workdir, ignore_errors=True)
 
     cov.update(rep.coverage())
+    cov['source_differs_from_validated_tree'] = lib.source_changed()
+    cov['budget_multiplier'] = ctx.boost
     # 3. verdict
     known = [k for k in load_known() if k.get('status') == 'known' and k.get('property') == prop]
     fails = []
@@ -184,7 +188,11 @@ def main():
         else:
             fails.append(f)
     if fails:
-        f = props.shrink(ctx, spec, fails[0])
+        try:
+            f = props.shrink(ctx, spec, fails[0])
+        except Exception:
+            traceback.print_exc()
+            f = fails[0]
         report_violation({'kind': 'property-fails-on-implementation', 'failure': f,
                           'other_failures': fails[1:6], 'count': len(fails)}, True)
     elif rep.disagreements:
